@@ -66,6 +66,14 @@ def run(rep, tier):
                        msg="opcode %d (%s) %s in xdis's %s, %s in CPython %s's %s" % (op, nm, "is" if op in a else "is not", cat,
                                                                                       "is" if op in b else "is not", v, cat))
             rep.ob("R1", name, cat, True, expected=sorted(b), derived=sorted(a))
+        # categories that exist only in newer opcode modules (hasarg, hasexc from 3.12): compared where the reference has them
+        for cat in ("hasarg", "hasexc"):
+            if cat not in ref:
+                continue
+            a = set(m.ns.get(cat, []))
+            b = set(ref.get(cat, []))
+            rep.ob("R1", name, cat, a == b, expected=sorted(b), derived=sorted(a), where=prov(m, cat, None),
+                   msg="%s of xdis's %s table differs from CPython %s's: only in xdis %s, only in CPython %s" % (cat, v, v, sorted(a - b)[:8], sorted(b - a)[:8]))
     # ---------------------------------------------------------------- R2
     for mname, m in sorted(T.reachable.items()):
         name = short(m)
